@@ -27,10 +27,11 @@ theorem no_pause_after_shutdown {n mx : Nat} {s : St} (hr : Reachable n mx s)
   · have := (hC2.2.2.2.2.2.1 htp).1; simp [h] at this
 
 /-- When `launch()` returns, and already while the final state is written, every background thread
-has exited, the clock is running and no pause is pending. -/
+has exited - or was never started, when an interrupt cut the start-up section short -, the clock is
+running and no pause is pending. -/
 theorem final_save_last {n mx : Nat} {s : St} (hr : Reachable n mx s)
     (h : s.ctl.pc = .finalIn ∨ s.ctl.pc = .returned) :
-    (∀ th ∈ s.thr, th.pc = .done) ∧ s.clockPaused = false ∧ s.ctl.paused = false ∧ s.shutdown = true := by
+    (∀ th ∈ s.thr, th.pc = .done ∨ th.pc = .new) ∧ s.clockPaused = false ∧ s.ctl.paused = false ∧ s.shutdown = true := by
   have hI := reachable_inv hr
   have hC2 := hI.1.2
   unfold CInv2 at hC2
@@ -41,7 +42,21 @@ theorem final_save_last {n mx : Nat} {s : St} (hr : Reachable n mx s)
   intro th hth
   have hT := hI.2 th hth
   unfold TInv at hT
-  exact hT.2.2.2.2.2.2.2.2.1 h
+  exact (hT.2.2.2.2.2.2.2.2.2.2.2.2.2.2 (hT.2.2.2.2.2.2.2.2.1 h)).1
+
+/-- A thread that was never started does nothing, and once the control thread has left the start-up
+section of `launch()` (normally or by an interrupt) no thread is started any more. -/
+theorem never_started_is_final {n mx : Nat} {s : St} (hr : Reachable n mx s) (t : Nat) (th : BThread)
+    (hget : s.thr[t]? = some th) (h : th.pc = .new) :
+    (∀ a, bstep s t th a = none) ∧ (s.ctl.pc ≠ .boot → cstep s (.cSpawn t) = none) := by
+  have hT := (reachable_inv hr).2 th (mem_of_getElem? hget)
+  unfold TInv at hT
+  have hin : th.inCb = none := (hT.2.2.2.2.2.2.2.2.2.2.2.1 h).1
+  refine ⟨?_, ?_⟩
+  · intro a
+    cases a <;> simp [bstep, h, cbAllowed, hin]
+  · intro hb
+    simp [cstep, hget, hb]
 
 /-- An exited thread does nothing any more (so no step or training run can follow the final save). -/
 theorem done_is_final {n mx : Nat} {s : St} (hr : Reachable n mx s) (t : Nat) (th : BThread)
